@@ -130,6 +130,14 @@ def judge_pair(sql, sql_q, dialect, S, mech, res, ctx, stream, has_unqualified=T
                     break
     if d is None:
         return None
+    if d["what"] == "cyC differs" and d["under_default_schema"]["edges"] == d["explicitly_qualified"]["edges"]:
+        from vlib.props import C11
+
+        if C11.equal_text_subqueries_named_differently(sql):
+            # tables, column pairs, table export and the edges of the column export agree; only the naming of a node that stands for
+            # two equal-text subqueries differs, and that follows the hash order of the two texts (K-eqtext-subq@C11): excluded, counted
+            res.discard("equal_text_subquery_naming_excluded")
+            return None
     fid = classify(c, d)
     if fid and fid in ctx.active:
         res.known(fid, c)
